@@ -41,6 +41,9 @@ THEOREMS (all proved, all "Closed under the global context"; fs, cwd, base, loc,
                                 look-alike, chdir with a relative base) applied to a private copy of the world, with a
                                 fresh lstat snapshot after each; the oracle's reference (which directory base_dir
                                 denotes, which inodes have which paths / st_nlink) is taken at the time of each call.
+  (load tie: spellings include model files that are themselves symlinks — into a sibling directory, through a
+   symlinked directory, chains, absolute target — with a same-named data file of distinct content in each directory;
+   the base must be the directory holding the ENTRY that was named, and the bytes read must be that directory's.)
   C10_load_sets_base            every tensor of a loaded model (graph AND model-local functions) gets
                                 dirname(p) or "." — never "" — for every spelling p;
   C10_load_base_is_model_dir    and the kernel resolves that string to the directory holding the model file's
@@ -100,6 +103,9 @@ MUTANTS of /repo tried in a scratch worktree (all reported VIOLATION with a conc
       changed the file system between reads of one tensor object); caught since the world-changing events were added:
       e.g. base W/da, loc f1: tofile ; da/f1 replaced by a symlink to W/outside/secret ; tofile -> canary bytes
       [correspondence + oracle, concrete shrunk replay].
+  seeded C10-r2m2 (load: dirname(realpath(path))): first seen only as a load_base row mismatch (no failing input);
+      with symlinked model files in the load tie: pub/m.onnx -> ../da/m.onnx reads da/w.bin instead of pub/w.bin
+      [load oracle, concrete replay].
   Also: applying the function-tensor fix made the (then "known") finding stale -> reported as broken, as designed.
   Model corrections made because the tie disagreed (model was wrong, not the code): tofile with 0 bytes to copy
   never raises for a short file (thorough tier); generator kept inside the modelled tree (no /etc/hostname).
@@ -1124,7 +1130,7 @@ def load_spellings(rng, d: str, links_to: list) -> list:
     return sp
 
 
-def run_load(root: str, d: str, cwd: str, spelling: str, snap: Snapshot) -> dict:
+def run_load(root: str, d: str, cwd: str, spelling: str, snap: Snapshot, entry_dir: str | None = None) -> dict:
     """ir.load with one spelling; observations: base_dir of every tensor + what reading it gives."""
     import onnx_ir as ir
     old = os.getcwd()
@@ -1136,7 +1142,9 @@ def run_load(root: str, d: str, cwd: str, spelling: str, snap: Snapshot) -> dict
         except Exception as e:  # noqa: BLE001
             obs["load_error"] = common.exn_name(e)
             return obs
-        want = os.stat(os.path.join(root, d))
+        # the model's directory = the directory holding the ENTRY that was named (the model file may itself be a
+        # symlink into another directory: locations are relative to where the link is, not to where it points)
+        want = os.stat(os.path.join(root, d if entry_dir is None else entry_dir))
         for where, t in model_tensors(model):
             b = os.fspath(t.base_dir)
             ent = {"where": where, "name": t.name, "base_dir": b}
@@ -1156,7 +1164,7 @@ def run_load(root: str, d: str, cwd: str, spelling: str, snap: Snapshot) -> dict
     return obs
 
 
-def oracle_load(obs: dict, canary: int) -> list:
+def oracle_load(obs: dict, canary: int, inside_fid: int | None = None) -> list:
     """(where, message) failures: base_dir non-empty and the model's directory for EVERY tensor; no canary bytes."""
     bad = []
     if "load_error" in obs:
@@ -1168,11 +1176,26 @@ def oracle_load(obs: dict, canary: int) -> list:
             bad.append((e["where"], f"{e['name']}: base_dir {e['base_dir']!r} is not the model's directory"))
         if e["read"][0] == "ok" and canary in e["read"][1]:
             bad.append((e["where"], f"{e['name']}: read canary bytes from outside the model directory"))
+        if inside_fid is not None and e["name"].endswith("_in") and e["read"][0] == "ok" \
+                and set(e["read"][1]) != {inside_fid}:
+            bad.append((e["where"], f"{e['name']}: read the same-named data file of another directory "
+                                    f"(bytes {e['read'][1]!r}, expected the model directory's file, content byte {inside_fid})"))
         if e["name"].endswith("_esc") and e["read"][0] == "ok":
             bad.append((e["where"], f"{e['name']}: escaping location was read"))
     return bad
 
 
+# model files that are themselves symlinks: into a sibling directory, through a symlinked directory, chains;
+# every directory has its own w.bin (distinct content byte) so the bytes tell which one was read
+LOAD_LINK_PLAN = [["dir", "pub"], ["file", "pub/w.bin", 11, 4], ["dir", "pub2"], ["file", "pub2/w.bin", 12, 4],
+                  ["symlink", "pub/m.onnx", "../da/m.onnx"], ["symlink", "pub/m2.onnx", "m.onnx"],
+                  ["symlink", "pub2/m.onnx", "../pub/m2.onnx"], ["symlink", "lpub", "pub"],
+                  ["symlink", "pub2/abs.onnx", W + "/lbase/m.onnx"]]
+LINK_SPELLINGS = [("", W + "/pub/m.onnx", "pub"), ("pub", "m.onnx", "pub"), ("", "pub/m.onnx", "pub"),
+                  ("", "lpub/m.onnx", "pub"), ("", W + "/lpub/m2.onnx", "pub"), ("pub", "./m2.onnx", "pub"),
+                  ("", "pub2/m.onnx", "pub2"), ("pub2", "m.onnx", "pub2"), ("pub2", "abs.onnx", "pub2"),
+                  ("da", "../pub2/abs.onnx", "pub2"), ("", W + "//pub2/../pub/m.onnx", "pub")]
+DIR_FID = {"da": 7, "pub": 11, "pub2": 12}
 LOAD_PLAN = [["dir", "da"], ["dir", "da/sub"], ["dir", "outside"], ["file", "outside/secret", 200, 8],
              ["file", "da/w.bin", 7, 4], ["symlink", "lbase", "da"], ["symlink", "da/sub/up", ".."]]
 
@@ -1181,7 +1204,7 @@ def load_tie(ck, idx: int):
     """Returns (frows for coq [(5, cwd, spelling, '', observed graph base)], failures [(case, bad)])."""
     root = os.path.join(ck.scratch, f"lw{idx}")
     shutil.rmtree(root, ignore_errors=True)
-    materialise(LOAD_PLAN, root)
+    materialise(LOAD_PLAN + LOAD_LINK_PLAN, root)
     snap = Snapshot(root)
     failures, rows, n = [], [], 0
     for d, links in (("da", ["lbase", "da/sub/up"]), ("", []), ("da/sub", [])):
@@ -1192,14 +1215,21 @@ def load_tie(ck, idx: int):
             esc = "../../outside/secret"
         inside = "w.bin" if d == "da" else ("../w.bin" if d == "da/sub" else "da/w.bin")
         build_model_file(mp, inside, esc)
-        for cwd, sp in load_spellings(ck.rng, d, links):
-            obs = run_load(root, d, cwd, sp, snap)
+        spellings = [(c, sp, None) for c, sp in load_spellings(ck.rng, d, links)]
+        if d == "da":
+            esc = "../outside/secret"          # escapes from da, pub and pub2 alike
+            build_model_file(mp, inside, esc)
+            spellings += LINK_SPELLINGS
+        for cwd, sp, entry_dir in spellings:
+            obs = run_load(root, d, cwd, sp, snap, entry_dir)
             n += 1
             ck.count()
-            ck.hist("load_spellings", "bare" if "/" not in sp else ("absolute" if sp.startswith(("/", W)) else "relative"))
-            bad = oracle_load(obs, 200)
-            case = {"kind": "load", "plan": LOAD_PLAN, "dir": d, "cwd": cwd, "spelling": sp, "inside": inside,
-                    "escape": esc.replace(root, W)}
+            ck.hist("load_spellings", ("symlinked-model-file:" if entry_dir else "") +
+                    ("bare" if "/" not in sp else ("absolute" if sp.startswith(("/", W)) else "relative")))
+            bad = oracle_load(obs, 200, DIR_FID.get(entry_dir or d) if d == "da" else None)
+            case = {"kind": "load", "plan": LOAD_PLAN + LOAD_LINK_PLAN, "dir": d, "cwd": cwd, "spelling": sp,
+                    "inside": inside, "escape": esc.replace(root, W), "entry_dir": entry_dir,
+                    "inside_fid": DIR_FID.get(entry_dir or d) if d == "da" else None}
             if bad:
                 failures.append((case, bad, obs))
             seen_where = set()
@@ -1218,8 +1248,8 @@ def replay_load_case(case: dict, root: str) -> list:
     materialise(case["plan"], root)
     snap = Snapshot(root)
     build_model_file(os.path.join(root, case["dir"], "m.onnx"), case["inside"], case["escape"].replace(W, root))
-    obs = run_load(root, case["dir"], case["cwd"], case["spelling"], snap)
-    return oracle_load(obs, 200)
+    obs = run_load(root, case["dir"], case["cwd"], case["spelling"], snap, case.get("entry_dir"))
+    return oracle_load(obs, 200, case.get("inside_fid"))
 
 
 # =========================================================================== replay / shrink / search
